@@ -128,6 +128,27 @@ def R2_queue(ctx):
         ctx.check(ok, "initial-priority", "initial priority: %s" % d, a.init_push.where(), detail=d)
 
 
+def _dijkstra_direct_sites(F, b, fn):
+    """calls of the search made on the Dijkstra arm itself with the literal weight Some(Cost::ZERO) and this query's own
+    endpoints, direction and instance"""
+    tm = Terms(b)
+    arm = None
+    for sbb, dt, names, t in switches(b, tm):
+        if names and nosite(deep_strip(dt)) == ("discr", ("arg", 1)) and "Dijkstra" in names.values():
+            arm = switch_target(t, names, "Dijkstra")
+    if arm is None:
+        return []
+    run = astar.RUN if fn == "run_vertex_oriented" else astar.A + "a_star::a_star_algorithm::run_a_star_edge_oriented"
+    out = []
+    for c in b.calls():
+        if c.callee == run and b.dominates(arm, c.bb):
+            a = [nosite(deep_strip(tm.operand(x, c.bb))) for x in c.args]
+            zero_w = ("agg", "std::option::Option", "Some", (("0", ZERO),))
+            if a[3] == zero_w and a[0] == ("arg", 2) and a[1] == ("arg", 3) and a[2] == ("arg", 5) and a[4] == ("arg", 6):
+                out.append(c)
+    return out
+
+
 def R3_dijkstra(ctx):
     """C02.R3 Dijkstra = weight 0; query override"""
     F = ctx.F
@@ -138,10 +159,14 @@ def R3_dijkstra(ctx):
         rows = [r for r in table(b, max_paths=100000) if r.end == "return" and r.sel.get(("arg", 1)) == "Dijkstra"]
         want_self = ("agg", SA, "AStarAlgorithm", (("weight_factor", ("agg", "std::option::Option", "Some", (("0", ZERO),))),))
         ok = len(rows) >= 1 and all(r.ret[0] == "call" and r.ret[1] == SA + "::" + fn and r.ret[2][0] == want_self and r.ret[2][1:] == tuple(("arg", i) for i in range(2, 7)) for r in rows)
+        if not ok:
+            # the other spelling: the Dijkstra arm runs the search itself with the zero weight
+            ok = bool(_dijkstra_direct_sites(F, b, fn))
         ctx.check(ok, "dijkstra:" + fn, "Dijkstra is not A* with weight factor Some(Cost::ZERO) on the same arguments: %s" % [short(r.ret)[:160] for r in rows][:1], b.where(), detail="AStarAlgorithm{weight_factor: Some(ZERO)}")
     rv = F.need(SA + "::run_vertex_oriented")
     tm = Terms(rv)
-    ra = rv.calls_to(astar.RUN)
+    direct_ = {c.bb for c in _dijkstra_direct_sites(F, rv, "run_vertex_oriented")}
+    ra = [c for c in rv.calls_to(astar.RUN) if c.bb not in direct_]
     if len(ra) != 1:
         raise AnchorMissing("run_a_star call in run_vertex_oriented")
     w = nosite(deep_strip(tm.operand(ra[0].args[3], ra[0].bb)))
